@@ -153,7 +153,10 @@ Clusters:
 	if len(h.volmgr.readables) != c06NVol {
 		t.Fatalf("VERIF-INFRA: %d readable volumes, want %d", len(h.volmgr.readables), c06NVol)
 	}
-	srv := httptest.NewServer(h)
+	quiet := c06DiscardLogger()
+	srv := httptest.NewServer(http.HandlerFunc(func(w http.ResponseWriter, r *http.Request) {
+		h.ServeHTTP(w, r.WithContext(ctxlog.Context(r.Context(), quiet)))
+	}))
 	return h, srv
 }
 
@@ -171,7 +174,9 @@ func c06MakeReaders(t *testing.T, base string) []c06Rd {
 	port, _ := strconv.Atoi(portS)
 	ks := &arvados.KeepService{UUID: "zzzzz-bi6l4-c06c06c06c06c06", ServiceHost: host, ServicePort: port, ServiceType: "disk"}
 	ac := &arvados.Client{APIHost: "unused.invalid", AuthToken: c06Token}
-	kc := &keepclient.KeepClient{Arvados: &arvadosclient.ArvadosClient{ApiToken: c06Token}, Want_replicas: 1}
+	kc := &keepclient.KeepClient{Arvados: &arvadosclient.ArvadosClient{ApiToken: c06Token}, Want_replicas: 1,
+		// same logic as the default client, minus its wall-clock timeouts (2 s connect / 20 s request)
+		HTTPClient: &http.Client{Transport: &http.Transport{}}}
 	kc.SetServiceRoots(map[string]string{ks.UUID: base}, nil, nil)
 	conv := func(es []arvados.KeepServiceIndexEntry) []string {
 		var out []string
